@@ -34,20 +34,21 @@ impl Arena {
         self.lines.len() as LineId
     }
 
+    // the node, everything below it and every node after it: siblings in a loop (a note can have
+    // tens of thousands of blocks in a row), children by recursion
     pub fn delete_branch(&mut self, from_id: NodeId) {
-        if let Some(line_id) = self.node(from_id).line_id() {
-            self.lines[line_id as usize] = Line::new(line_id, GraphInlines::new());
+        let mut current = Some(from_id);
+        while let Some(id) = current {
+            let node = self.node(id);
+            if let Some(line_id) = node.line_id() {
+                self.lines[line_id as usize] = Line::new(line_id, GraphInlines::new());
+            }
+
+            node.child_id().map(|child_id| self.delete_branch(child_id));
+
+            current = node.next_id();
+            self.set_node(id, GraphNode::Empty);
         }
-
-        self.node(from_id)
-            .child_id()
-            .map(|id| self.delete_branch(id));
-
-        self.node(from_id)
-            .next_id()
-            .map(|id| self.delete_branch(id));
-
-        self.set_node(from_id, GraphNode::Empty);
     }
 
     pub fn nodes(&self) -> &Vec<GraphNode> {
